@@ -4,7 +4,10 @@
 (* shared by OutBuf.tla (model checking) and OutBuf_Trace.tla.             *)
 (*                                                                         *)
 (* cfg = [kinds, limit, size, pay, static]                                 *)
-(*   kinds[k]  "direct" (Input), "pass" (Input behind a pass-through       *)
+(*   kinds[k]  "direct" (Input), "pass" / "tpass" (Input behind a pass-      *)
+(*             through adapter / behind a DelayToPush, which passes every    *)
+(*             time up to the newest publication unchanged; the remaining   *)
+(*             lines describe "pass": Input behind a pass-through            *)
 (*             adapter: the end point is the input), "shared" (a further   *)
 (*             Input on the previous end point's adapter), "buffer" (push- *)
 (*             based adapter: registers itself, pulls at every             *)
